@@ -42,13 +42,13 @@ func c06Corruptions(mode string) []string {
 	case "unsigned":
 		return common
 	case "stream-signed":
-		return append(common, "chunk-sig-first", "chunk-sig-middle", "chunk-sig-final", "chunk-data-bit-flip", "truncate-after-chunk", "truncate-mid-chunk",
+		return append(common, "chunk-without-signature", "chunk-sig-first", "chunk-sig-middle", "chunk-sig-final", "chunk-data-bit-flip", "truncate-after-chunk", "truncate-mid-chunk",
 			"truncate-before-final", "declared-length-larger", "declared-length-smaller", "extra-bytes-after-final", "chunk-size-larger-than-data",
 			"cut-at-chunk-boundary-length-adjusted", "cut-at-chunk-boundary-length-adjusted+bit-flip", "cut-at-chunk-boundary-length-adjusted+sig-wrong",
 			"cut-at-chunk-data-end-length-adjusted", "cut-at-chunk-data-end-length-adjusted+bit-flip", "cut-at-chunk-data-end-length-adjusted+sig-wrong",
 			"zero-declared-with-payload")
 	case "stream-signed-trailer":
-		return []string{"trailer-checksum-wrong", "trailer-signature-wrong", "chunk-sig-first", "chunk-sig-final", "chunk-data-bit-flip", "truncate-after-chunk",
+		return []string{"trailer-checksum-wrong", "trailer-signature-wrong", "chunk-without-signature", "chunk-sig-first", "chunk-sig-final", "chunk-data-bit-flip", "truncate-after-chunk",
 			"truncate-before-final", "truncate-in-trailer", "declared-length-larger", "declared-length-smaller",
 			"cut-at-chunk-boundary-length-adjusted", "cut-at-chunk-boundary-length-adjusted+bit-flip",
 			"cut-at-chunk-data-end-length-adjusted", "cut-at-chunk-data-end-length-adjusted+bit-flip"}
@@ -84,6 +84,13 @@ func (c c06Case) apply(req *gw.Req, body []byte) {
 	mut := func(f func(w []byte) []byte) { req.WireMut = f }
 	switch c.corrupt {
 	case "":
+	case "chunk-without-signature":
+		// one data chunk carries an empty chunk-signature and is outside the chain; everything else is consistent
+		n := len(body) / 3
+		if n == 0 {
+			n = len(body)
+		}
+		req.UnsignedTail = n
 	case "content-md5-wrong":
 		s := md5.Sum(append([]byte("x"), body...))
 		req.Set("Content-MD5", base64.StdEncoding.EncodeToString(s[:]))
